@@ -243,6 +243,11 @@ impl View for HString { type V = Seq<u8>; uninterp spec fn view(&self) -> Seq<u8
 impl HString {
     #[verifier::external_body]
     pub fn as_bytes(&self) -> (r: &[u8]) ensures r@ == self@ { unimplemented!() }
+    // String::is_empty / String::len are byte-based (the accessors a rewrite of write_header would reach for; seed C10_5)
+    #[verifier::external_body]
+    pub fn is_empty(&self) -> (r: bool) ensures r == (self@.len() == 0) { unimplemented!() }
+    #[verifier::external_body]
+    pub fn len(&self) -> (r: usize) ensures r == self@.len() { unimplemented!() }
 }
 #[verifier::external_body]
 pub struct Headers { m: std::collections::BTreeMap<String, Vec<String>> }
